@@ -116,7 +116,7 @@ def case_doc(prog, style, rseed, bindings):
 def shrink_failure(prog, style, rseed, bindings, key, budget):
     def still(p, bs):
         try:
-            if L.check_wellformed(p):
+            if L.check_wellformed(p) or L.typecheck(p):
                 return False
             r = run_case(p, style, rseed, bs)
         except Exception:  # noqa: BLE001
@@ -184,7 +184,7 @@ def run(ck: core.Check):
     shrink_budget = [ck.pick(3, 6)]  # number of failures that get shrunk
 
     for pi, (prog, origin) in enumerate(programs):
-        bad = L.check_wellformed(prog)
+        bad = L.check_wellformed(prog) + L.typecheck(prog)
         if bad:
             raise RuntimeError(f"generator produced an ill-formed program: {bad[:2]}")
         bindings = [L.random_binding(prog, rng) for _ in range(n_bind)]
